@@ -3,6 +3,8 @@
 package connectconformance
 
 import (
+	"os"
+	"path/filepath"
 	"fmt"
 	"sort"
 	"strings"
@@ -388,4 +390,133 @@ func vfAnyPreset(suites []vfSuite) bool {
 		}
 	}
 	return false
+}
+
+// TestVerifC07RunMode: "the suite's mode admits the run mode", with the run mode as the runner derives it from the
+// commands it is given: only a client command = client under test, only a server command = server under test, both =
+// neither reference peer is used and only mode-less suites apply. run() is driven up to the point where it would
+// start a (non-existent) peer command; one --run pattern per suite makes it say which suites have no permutation.
+func TestVerifC07RunMode(t *testing.T) {
+	en := verifkit.NewEnum(t, "C07RunMode")
+	type row struct {
+		Client bool  `json:"clientCommand"`
+		Server bool  `json:"serverCommand"`
+		Modes  []int `json:"suiteModes"`
+	}
+	cfg := []configCase{{Version: conformancev1.HTTPVersion_HTTP_VERSION_1, Protocol: conformancev1.Protocol_PROTOCOL_CONNECT,
+		Codec: conformancev1.Codec_CODEC_PROTO, Compression: conformancev1.Compression_COMPRESSION_IDENTITY, StreamType: conformancev1.StreamType_STREAM_TYPE_UNARY}}
+	suiteNames := map[int]string{0: "Any Mode", 1: "Client Only", 2: "Server Only"}
+	for _, modes := range [][]int{{0, 1, 2}, {1, 2}, {0, 1}, {0, 2}, {2, 1, 0}} {
+		for _, cmds := range [][2]bool{{true, false}, {false, true}, {true, true}} {
+			r := row{Client: cmds[0], Server: cmds[1], Modes: modes}
+			suites := map[string]*conformancev1.TestSuite{}
+			var patterns []string
+			for _, m := range modes {
+				suites[fmt.Sprintf("dir-%d/suite.yaml", m)] = &conformancev1.TestSuite{Name: suiteNames[m], Mode: conformancev1.TestSuite_TestMode(m),
+					TestCases: []*conformancev1.TestCase{{Request: &conformancev1.ClientCompatRequest{TestName: "one", StreamType: conformancev1.StreamType_STREAM_TYPE_UNARY}}}}
+				patterns = append(patterns, suiteNames[m]+"/**")
+			}
+			flags := &Flags{MaxServers: 1, Parallelism: 1}
+			runMode := 0
+			if cmds[0] {
+				flags.ClientCommand = []string{"/nonexistent/verif-no-such-client"}
+				runMode = 1
+			}
+			if cmds[1] {
+				flags.ServerCommand = []string{"/nonexistent/verif-no-such-server"}
+				runMode = 2
+			}
+			if cmds[0] && cmds[1] {
+				runMode = 0
+			}
+			var wantUnmatched []string
+			for _, m := range modes {
+				if m != 0 && m != runMode {
+					wantUnmatched = append(wantUnmatched, suiteNames[m]+"/**")
+				}
+			}
+			sort.Strings(wantUnmatched)
+			_, err := run(cfg, &testTrie{}, &testTrie{}, parsePatterns(patterns), nil, suites, vfNullPrinter{}, vfNullPrinter{}, flags)
+			var gotUnmatched []string
+			if err != nil && strings.Contains(err.Error(), "unmatched and possibly invalid patterns:") {
+				gotUnmatched = strings.Split(strings.SplitN(err.Error(), "patterns:\n", 2)[1], "\n")
+				sort.Strings(gotUnmatched)
+			}
+			var viol error
+			switch {
+			case len(wantUnmatched) == len(modes):
+				// no suite applies at all
+				if err == nil || !strings.Contains(err.Error(), "no test cases apply") {
+					viol = verifkit.Violf("run-mode-suites", "client command %v, server command %v, suite modes %v: no suite applies but run() said: %v", cmds[0], cmds[1], modes, err)
+				}
+			case err == nil && len(wantUnmatched) > 0:
+				// (a server command that cannot be started is recorded per case, not returned: every pattern matched)
+				viol = verifkit.Violf("run-mode-suites", "client command %v, server command %v: every suite pattern matched, want no permutation for %q", cmds[0], cmds[1], wantUnmatched)
+			case err == nil:
+			case strings.Join(gotUnmatched, "|") != strings.Join(wantUnmatched, "|"):
+				viol = verifkit.Violf("run-mode-suites", "client command %v, server command %v: suites without any permutation %q, want %q (a suite applies iff it has no mode or the mode of the run); run() said: %v", cmds[0], cmds[1], gotUnmatched, wantUnmatched, err)
+			}
+			en.Rec.Observe(r, []string{fmt.Sprintf("client-command:%v", cmds[0]), fmt.Sprintf("server-command:%v", cmds[1])}, true)
+			if viol != nil && en.Fail(r, viol) {
+				en.Done(true)
+				return
+			}
+		}
+	}
+	en.Done(true)
+}
+
+// TestVerifC07Files: suites given with --test-file are all expanded, whatever their paths look like: two files with
+// the same base name in different directories, a relative and an absolute path, a file listed twice. The exported Run
+// is driven up to the point where it would start a (non-existent) client command; one --run pattern per suite makes
+// it say which suites contributed no permutation.
+func TestVerifC07Files(t *testing.T) {
+	en := verifkit.NewEnum(t, "C07Files")
+	dir, err := os.MkdirTemp(".", "c07files")
+	if err != nil {
+		t.Fatal(err)
+	}
+	defer os.RemoveAll(dir)
+	abs, _ := filepath.Abs(dir)
+	write := func(rel, suite string) string {
+		p := filepath.Join(dir, rel)
+		_ = os.MkdirAll(filepath.Dir(p), 0o755)
+		yaml := fmt.Sprintf("name: %s\nrelevantProtocols: [PROTOCOL_CONNECT]\nrelevantHttpVersions: [HTTP_VERSION_1]\nrelevantCodecs: [CODEC_PROTO]\nrelevantCompressions: [COMPRESSION_IDENTITY]\ntestCases:\n  - request:\n      testName: one\n      streamType: STREAM_TYPE_UNARY\n      requestMessages:\n        - \"@type\": type.googleapis.com/connectrpc.conformance.v1.UnaryRequest\n          responseDefinition:\n            responseData: \"dGVzdA==\"\n", suite)
+		_ = os.WriteFile(p, []byte(yaml), 0o644)
+		return p
+	}
+	type row struct {
+		Files  []string `json:"files"`
+		Suites []string `json:"suites"`
+	}
+	rows := []row{
+		{Files: []string{write("client/basic.yaml", "First Basic"), write("server/basic.yaml", "Second Basic")}, Suites: []string{"First Basic", "Second Basic"}},
+		{Files: []string{write("a/x/suite.yaml", "Deep One"), write("a/suite.yaml", "Deep Two"), write("suite.yaml", "Deep Three")}, Suites: []string{"Deep One", "Deep Two", "Deep Three"}},
+		{Files: []string{write("rel.yaml", "Relative Path"), filepath.Join(abs, "rel2.yaml")}, Suites: []string{"Relative Path", "Absolute Path"}},
+	}
+	write("rel2.yaml", "Absolute Path")
+	cfgFile := filepath.Join(dir, "config.yaml")
+	_ = os.WriteFile(cfgFile, []byte("features:\n  versions: [HTTP_VERSION_1]\n  protocols: [PROTOCOL_CONNECT]\n  codecs: [CODEC_PROTO]\n  compressions: [COMPRESSION_IDENTITY]\n  supportsTls: false\n"), 0o644)
+	for _, r := range rows {
+		var pats []string
+		for _, s := range r.Suites {
+			pats = append(pats, s+"/**")
+		}
+		flags := &Flags{ConfigFile: cfgFile, TestFiles: r.Files, RunPatterns: pats, MaxServers: 1, Parallelism: 1, ClientCommand: []string{"/nonexistent/verif-no-such-client"}}
+		_, err := Run(flags, vfNullPrinter{}, vfNullPrinter{})
+		var viol error
+		switch {
+		case err == nil:
+			viol = verifkit.Violf("files-no-error", "Run with a non-existent client command returned no error (%+v)", r)
+		case strings.Contains(err.Error(), "unmatched and possibly invalid patterns:"):
+			viol = verifkit.Violf("files-suite-missing", "suites given with --test-file %q: no permutation for %q", r.Files, strings.Split(strings.SplitN(err.Error(), "patterns:\n", 2)[1], "\n"))
+		case !strings.Contains(err.Error(), "verif-no-such-client") && !strings.Contains(err.Error(), "client"):
+			viol = verifkit.Violf("files-rejected", "suite files %q were not loaded: %v", r.Files, err)
+		}
+		en.Rec.Observe(r, []string{fmt.Sprintf("files:%d", len(r.Files))}, true)
+		if viol != nil && en.Fail(r, viol) {
+			break
+		}
+	}
+	en.Done(true)
 }
